@@ -267,6 +267,7 @@ func runCheck(id, tier, entryRe string, workers int, trace bool, sk solver.Kind,
 	}
 	cfg := interp.Config{Solver: sk, Trace: trace}
 	if tier == "thorough" {
+		interp.CrossCheck = true
 		cfg.SolverTimeout = 120000
 		cfg.MaxPaths = 2000000
 		cfg.MaxSteps = 50_000_000
@@ -274,7 +275,7 @@ func runCheck(id, tier, entryRe string, workers int, trace bool, sk solver.Kind,
 			maxSec = 3000
 		}
 	} else {
-		cfg.SolverTimeout = 30000
+		cfg.SolverTimeout = 15000
 		if maxSec == 0 {
 			maxSec = 900
 		}
